@@ -477,6 +477,24 @@ def extra_specs() -> list[dict]:
                         sprout={"kind": "simple", "far": 0.05, "limit": 2}, gsc={"kind": "MetaepochLimit", "n": 5}))
         if out[-1]["dump_at"] is None:
             out[-1].pop("dump_at")
+    # two configurations that exposed defects in the thorough tier (fixed in /repo 02835d2, baffef4) - pinned in every tier:
+    # a local search in a box of width 1e-9 with the optimum on a face (scipy's finite differences overshoot the bound by an ulp)
+    for k in range(3):
+        n += 1
+        out.append(dict(name=f"xtra{n}", seed=[919694, 2101, 2102][k], dim=4, box="tiny", fn="linear", maximize=(k != 1),
+                        levels=[{"engine": ["MPL", "SEA", "DE"][k], "pop": 8, "gens": 1, "k_elites": 1, "lsc": {"kind": "DemeTarget", "target": 0.01, "n": 3}},
+                                {"engine": "LOCAL", "maxiter": 2, "lsc": {"kind": "DontStop"}}],
+                        hibernation=False, gsc={"kind": "MetaepochLimit", "n": 4},
+                        sprout={"kind": "composed", "generator": "best", "gen": 2.0, "trunc": 1.0, "deme_filters": [["demelimit", 1]], "tree_filters": [["levellimit", 4]]}))
+    # ... and a CMA-ES deme that takes its initial standard deviations (set_stds) from a parent population that is
+    # degenerate in a coordinate: the iterates of a local search on a plateau
+    n += 1
+    out.append(dict(name=f"xtra{n}", seed=174223, dim=4, box="sym", fn="plateau", maximize=False, hibernation=True, reports=True,
+                    levels=[{"engine": "SEA", "pop": 4, "gens": 3, "k_elites": 2, "lsc": {"kind": "MetaepochLimit", "n": 2}},
+                            {"engine": "LOCAL", "lsc": {"kind": "DontStop"}},
+                            {"engine": "CMAs", "gens": 1, "lsc": {"kind": "FitnessSteadiness", "n": 1, "dev": 1e-09}}],
+                    gsc={"kind": "SingularEvalLimit", "n": 300}, max_consults=400,
+                    sprout={"kind": "nbc_local", "gen": 1.0, "trunc": 1.0, "fil": 2.0, "limit": 1}))
     # hibernation switched off on the live tree at a boundary (the options dictionary is public and read live)
     for k, (sprout, third) in enumerate((({"kind": "nbc", "gen": 1.0, "trunc": 1.0, "fil": 0.5, "limit": 1}, None),
                                          ({"kind": "simple", "far": 0.05, "limit": 1}, None),
